@@ -81,10 +81,16 @@ UNITS['bq1_2'] = dict(wrapper='w_cq.cpp', mode='lcs', unroll=1, cxxflags=['-DELE
 UNITS['bq1_3'] = dict(wrapper='w_cq.cpp', mode='lcs', unroll=1, cxxflags=['-DELEM=1', '-DBOUNDED=1'], lvalpath=True, immutable=IMMB, threads=thr('vp_thr_q', 3))
 UNITS['cqx1_2'] = dict(wrapper='w_cq.cpp', mode='lcs', unroll=1, cxxflags=['-DELEM=1', '-DFAULTS=1'], exceptions=True, allow_atomic=['__clang_call_terminate'], lvalpath=True, immutable=IMM, threads=thr('vp_thr_q', 2))
 UNITS['bqx1_2'] = dict(wrapper='w_cq.cpp', mode='lcs', unroll=1, cxxflags=['-DELEM=1', '-DBOUNDED=1', '-DABORTS=1'], exceptions=True, allow_atomic=['__clang_call_terminate'], lvalpath=True, immutable=IMMB, threads=thr('vp_thr_q', 2))
+# REALCPP: src/tbb/concurrent_bounded_queue.cpp is part of the unit; the boundary is concurrent_monitor_base::wait / notify(pred) / abort_all
+REALCUT = ['concurrent_monitor_baseImE4waitI', 'concurrent_monitor_baseImE6notifyI', 'concurrent_monitor_baseImE9abort_allEv']
+UNITS['bqr1_2'] = dict(wrapper='w_cq.cpp', mode='lcs', unroll=1, cxxflags=['-DELEM=1', '-DBOUNDED=1', '-DREALCPP=1', '-D__TBB_BUILD=1'], cut=REALCUT, prune=True,
+                       lvalpath=True, immutable=IMMB, threads=thr('vp_thr_q', 2))
+UNITS['bqrf1_2'] = dict(wrapper='w_cq.cpp', mode='lcs', unroll=1, cxxflags=['-DELEM=1', '-DBOUNDED=1', '-DREALCPP=1', '-DFAULTS=1', '-D__TBB_BUILD=1'], cut=REALCUT, prune=True,
+                        exceptions=True, allow_atomic=['__clang_call_terminate'], lvalpath=True, immutable=IMMB, threads=thr('vp_thr_q', 2))
 HARNESSES = [
   dict(name='cq_big_2t', unit='cq1_2', harness='h_cq.c', defines={'NT': 2, 'ITEMS_PER_PAGE': 1},
-       scenarios_quick=R(3, ONE_OP[:3]) + R(2, ONE_OP[3:]) + R(2, TWO_OP[:1]), scenarios_thorough=R(4, ONE_OP[:3]) + R(3, ONE_OP[3:]) + R(3, TWO_OP),
-       cbmc=CB, timeout=1500, mem_gb=8, thorough_override={'timeout': 3600}, native_cflags=NCF,
+       scenarios_quick=R(3, ONE_OP[:3]) + R(2, ONE_OP[3:5]) + R(2, TWO_OP[:1]), scenarios_thorough=R(4, ONE_OP[:3]) + R(3, ONE_OP[3:]) + R(3, TWO_OP[:4]) + R(2, TWO_OP[4:]),
+       cbmc=CB, timeout=1500, mem_gb=8, thorough_override={'timeout': 7200}, native_cflags=NCF,
        desc='concurrent_queue<136-byte struct> (1 item/page: page allocated by every push, freed by every pop): ' + DESC,
        bounds={'threads': 2, 'ops_per_thread': '<=2', 'free_rounds': 'ROUNDS of the scenario (quick: 3 for 1 op/thread from a short pre-state, 2 otherwise; thorough 4 / 3)', 'forced_rounds': 2, 'spin_unroll': 1, 'pre_state': 'PRE_PUSH pushes then PRE_POP pops, sequential'}),
   dict(name='cq_int_2t', unit='cq0_2', harness='h_cq.c', defines={'NT': 2, 'ITEMS_PER_PAGE': 32},
@@ -112,11 +118,19 @@ HARNESSES = [
             'an aborted push leaves an invalid entry that later pops skip; user_abort only for calls overlapping an abort(); no item lost or duplicated, history of the successful calls linearizable. '
             'PREBLOCK: thread a first runs until it sleeps, then the threads interleave freely',
        bounds={'threads': 2, 'ops_per_thread': '<=2', 'capacity': 1, 'free_rounds': 'ROUNDS of the scenario (quick 2 / 1, thorough 2)', 'forced_rounds': 2, 'spin_unroll': 1}),
+  dict(name='bq_fault_2t', unit='bqrf1_2', harness='h_cq.c', defines={'NT': 2, 'ITEMS_PER_PAGE': 1, 'BOUNDED': 1, 'REALCPP': 1, 'FAULTS': 1},
+       scenarios_quick=R(1, [dict(bsc(2, 0, 0, (BPOP, N), (PUSH, PUSH)), PREBLOCK=1)]),
+       scenarios_thorough=R(2, [dict(bsc(2, 0, 0, (BPOP, N), (PUSH, PUSH)), PREBLOCK=1), bsc(2, 0, 0, (BPOP, N), (PUSH, PUSH))]),
+       cbmc=CB, timeout=1500, mem_gb=8, thorough_override={'timeout': 5400}, native_cflags=NCF,
+       desc='concurrent_bounded_queue with a throwing element constructor (unit WITH exceptions, real concurrent_bounded_queue.cpp): a consumer sleeps in pop() with ticket t, the push that owns '
+            'ticket t fails after taking it (invalid entry, no notify), the next push succeeds: its notify must release the sleeper (predicate_leq covers skipped tickets), the pop skips the invalid '
+            'entry and returns the next item; nothing lost, history of the successful calls linearizable',
+       bounds={'threads': 2, 'ops_per_thread': '<=2', 'capacity': 2, 'faults': '<=1 constructor exception at a solver-chosen call', 'free_rounds': 'quick 1 / thorough 2', 'forced_rounds': 2, 'spin_unroll': 1}),
   dict(name='cq_big_3t', unit='cq1_3', harness='h_cq.c', defines={'NT': 3, 'ITEMS_PER_PAGE': 1}, tiers=['thorough'],
        scenarios=R(2, THREE_T), cbmc=CB, timeout=3600, mem_gb=8, native_cflags=NCF,
        desc='concurrent_queue<136-byte struct>, 3 threads x 1 operation: ' + DESC,
        bounds={'threads': 3, 'ops_per_thread': 1, 'free_rounds': 2, 'forced_rounds': 2, 'spin_unroll': 1}),
-  dict(name='bq_big_2t', unit='bq1_2', harness='h_cq.c', defines={'NT': 2, 'ITEMS_PER_PAGE': 1, 'BOUNDED': 1},
+  dict(name='bq_big_2t', unit='bqr1_2', harness='h_cq.c', defines={'NT': 2, 'ITEMS_PER_PAGE': 1, 'BOUNDED': 1, 'REALCPP': 1},
        scenarios_quick=R(2, BQ_ONE[:3] + BQ_ONE[4:]), scenarios_thorough=R(3, BQ_ONE) + R(2, BQ_TWO),
        cbmc=CB, timeout=1500, mem_gb=8, thorough_override={'timeout': 5400}, native_cflags=NCF,
        desc='concurrent_bounded_queue<136-byte struct>, capacity 1-2 (header code real; the r1:: monitor entry points are contract stubs with sleeper bookkeeping): '
@@ -140,26 +154,28 @@ MANIFEST = dict(
              'lane/ticket invariants and page accounting at quiescence, no use-after-free of pages (cbmc pointer checks), no lost hand-off or lost wake-up '
              '(two-round blocked-state oracle), capacity never exceeded, try_push/try_pop failures justified.',
   level_note='Element types: 136-byte (1 item/page), 72-byte (2/page), 4-byte (32/page). Bounds per harness in evidence (threads, ops, rounds, pre-state). '
-             'concurrent_bounded_queue: the header code is real, the three r1:: monitor entry points are contract stubs (atomic test-and-sleep, notify selects '
-             'contexts <= ticket, abort wakes all with user_abort); the real concurrent_monitor is checked in C02. Two harnesses are compiled WITH exceptions (lowered by the translator): '
-             'an element copy constructor that throws at a solver-chosen call after the ticket was taken (invalid entry skipped by pops, nothing else lost), and abort() of a sleeping push/pop. '
+             'concurrent_bounded_queue: header code and src/tbb/concurrent_bounded_queue.cpp (wait/notify wrappers, predicate_leq, representation allocation) are real; the boundary is '
+             'concurrent_monitor_base::wait / notify(pred) / abort_all as contract stubs (atomic test-and-sleep; a selected sleeper returns without re-checking, as the real wait does); the real '
+             'concurrent_monitor is checked in C02 (the abort harness stubs one level higher, at the r1:: entry points). Three harnesses are compiled WITH exceptions (lowered by the translator): '
+             'an element copy constructor that throws at a solver-chosen call after the ticket was taken (unbounded queue: invalid entry skipped, nothing else lost; bounded queue: a consumer asleep on '
+             'exactly that ticket is still released by the next push), and abort() of a sleeping push/pop. '
              'Page-allocation failure (bad_last_alloc) is outside. '
              'Sequential consistency. Trusted: clang-14 IR, tools/ir2c.py (--lvalpath/--immutable emission), cbmc + kissat.',
 )
 OUTSIDE = [
   'more than 3 threads, more than 2 operations per thread (4 concurrent operations in the quick tier)',
-  'fault sequences beyond one constructor exception per run; page allocation that throws (invalidate_page / bad_last_alloc path); faults in the bounded queue',
+  'fault sequences beyond one constructor exception per run; page allocation that throws (invalidate_page / bad_last_alloc path); bounded-queue faults other than the sleeping-consumer scenario (e.g. a sleeping producer whose key is an invalid slot)',
   'abort() racing with more than one sleeper or with a notify for the same sleeper beyond the 2-thread scenarios listed; capacity changes while threads run; negative-size states with more than one blocked pop',
-  'the real concurrent_monitor under the bounded queue (stubbed at the r1:: boundary; covered separately by C02) and the real cache_aligned_allocator',
+  'the real concurrent_monitor under the bounded queue (stubbed at concurrent_monitor_base::wait/notify/abort_all; covered separately by C02) and the real cache_aligned_allocator',
   'two operations meeting in the same lane other than push(k+8)/pop(k): e.g. pop(k)/pop(k+8) needs >8 pops (mutation M2 below is invisible inside the bound)',
   'emplace / move push, iterators, copy/move/assign/clear/swap (not concurrent operations)',
   'weak memory: sequential consistency only',
 ]
 STUBS = [
   'r1::cache_aligned_allocate/deallocate: malloc/free of the requested size (queue representation handed out as a static typed object, pages as typed heap objects)',
-  'r1::allocate_bounded_queue_rep: static representation object; the monitor memory behind it is never touched by the header code',
-  'r1::wait_bounded_queue_monitor(tag, target, pred): returns iff pred() is false, else the caller sleeps under context `target`; test-and-sleep atomic; pred re-evaluated after each selecting notify',
-  'r1::notify_bounded_queue_monitor(tag, ticket): wakes every sleeper of that monitor whose context <= ticket (predicate_leq)',
+  'concurrent_monitor_base<uintptr_t>::wait(pred, node) [bq_big_2t, bq_fault_2t; r1::wait_bounded_queue_monitor in bq_abort_2t]: returns at once iff the wait predicate is false, else the caller sleeps under the node context; test-and-sleep atomic; a sleeper selected by a notify returns WITHOUT re-evaluating the predicate (as the real wait)',
+  'concurrent_monitor_base::notify(predicate_leq) [r1::notify_bounded_queue_monitor in bq_abort_2t]: wakes every sleeper of that monitor for which the REAL predicate_leq::operator() accepts its context',
+  'cache_aligned_allocate for the bounded representation: one static typed object {representation, 2 monitors}; the monitors are constructed by the real allocate_bounded_queue_rep and otherwise untouched',
   'r1::abort_bounded_queue_monitors: every current sleeper is woken and its wait throws user_abort without re-evaluating the predicate (concurrent_monitor::abort_all)',
   'r1::throw_exception: throws (sets the pending-exception flag of the lowered unwinding) in the abort harness, must not be reached elsewhere',
   'element copy constructor fault hook vp_ctor_fault (fault harness only): throws at most FAULTS times at solver-chosen calls while the threads run',
